@@ -113,6 +113,26 @@ Theorem C06_unknown_key_cli_file : forall nm ws inst sdefs acp_arg ctor clif cli
 Proof. exact unknown_key_clif. Qed.
 Print Assumptions C06_unknown_key_cli_file.
 
+Theorem C06_unknown_key_set_defaults : forall nm ws inst sdefs acp_arg ctor cg clif cli kw,
+  In kw sdefs -> forest_names_nonfield ws kw = true ->
+  exists e, run_gen nm ws inst sdefs acp_arg ctor cg clif cli = Err e.
+Proof. exact unknown_key_sdefs. Qed.
+Print Assumptions C06_unknown_key_set_defaults.
+
+(* the three statements above in one: whatever the model returns for fresh wrappers of dataclasses with distinct field
+   names, when no document says `null` about any field, passes the executable verdict of Model/LayersSpec.v - the
+   very predicate that judges the implementation in the correspondence run *)
+Theorem C06_model_meets_spec : forall nm ws inst sdefs acp_arg ctor cg clif cli r,
+  run_gen nm ws inst sdefs acp_arg ctor cg clif cli = Ok r ->
+  forallb is_map (ctor ++ clif) = true ->
+  wf_forest ws = true ->
+  forallb (fun qd => nonnull_at nm ws (fst qd) sdefs (ctor ++ clif)) (forest_leaf_paths ws) = true ->
+  (cg = true -> acp_of acp_arg ctor = true) ->
+  verdict_allows (spec_verdict ws inst sdefs (map (rooted_gen nm ws) ctor)
+                               (map (rooted_gen nm ws) (if cg then clif else [])) cli) (Ok r) = true.
+Proof. exact model_meets_spec. Qed.
+Print Assumptions C06_model_meets_spec.
+
 (* non-vacuity: parse(Root, default=Root(..), config_path=[f1, f2], args="--config_path g1 --d 9") on
      class In: c: str = "c1"; d: int = 4; e: Optional[int] = None
      class Root: a: int = 1; b: int (required); n: In
@@ -135,7 +155,7 @@ Example C06_nonvacuous :
   run_gen PARSE_NESTED_MODE_GEN ex_ws ex_inst [] (Some true) ex_ctor true ex_clif ex_cli
   = Ok (PMap [("config", PMap [("a", PVal (VInt 1)); ("b", PVal (VInt 2));
                                ("n", PMap [("c", PVal (VStr "c11")); ("d", PVal (VInt 9)); ("e", PVal (VInt 20))])])])
-  /\ forallb is_map (ex_ctor ++ ex_clif) = true
+  /\ forallb is_map (ex_ctor ++ ex_clif) = true /\ wf_forest ex_ws = true
   /\ forallb (fun qd => match fleaf_at (fst qd) ex_ws with Some (_, d, None, PNull) => true | _ => false end
                         && nonnull_at PARSE_NESTED_MODE_GEN ex_ws (fst qd) [] (ex_ctor ++ ex_clif))
              (forest_leaf_paths ex_ws) = true
